@@ -23,6 +23,46 @@ ASSUMPTIONS = ["optimal gain from scipy.optimize.linprog (HiGHS) on Puterman's m
                "tolerance 1e-6*scale: the implementation solves normal equations (squared condition number)"]
 
 
+def _funnel(rng):
+    """undiscounted multichain structure: a few closed sinks that offer every action (each step there costs), fed by
+    transient states that offer only SOME of the actions; costs of order 1 or of order 1000 per step"""
+    sp = G.Spec()
+    sp.family = "funnel"
+    sp.gamma = 1.0
+    acts = rng.choice([("go", "alt"), ("go", "alt", "wait")])
+    ks, kt = rng.randint(1, 3), rng.randint(1, 3)
+    sinks = ["sink%d" % i for i in range(ks)]
+    trans = ["t%d" % i for i in range(kt)]
+    sp.states = trans + sinks
+    scale = rng.choice([1.0, 1000.0, 1000.0, 5000.0])
+    for s_ in sinks:
+        sp.acts[s_] = tuple(acts)
+        for a in acts:
+            if rng.random() < 0.7:
+                lst = [(s_, 1.0)]
+            else:
+                other = rng.choice(sinks)
+                lst = [(s_, 0.75), (other, 0.25)] if other != s_ else [(s_, 1.0)]
+            sp.P[(s_, a)] = lst
+            sp.kind[(s_, a)] = "dict"
+            for t, _ in lst:
+                sp.R[(s_, a, t)] = -scale * rng.choice([1.0, 1.5, 2.0, 3.0])
+    for i, s_ in enumerate(trans):
+        sp.acts[s_] = tuple(rng.sample(acts, rng.randint(1, len(acts) - 1)))       # a strict subset
+        for a in sp.acts[s_]:
+            down = trans[i + 1:] + sinks
+            succ = rng.sample(down, min(len(down), rng.choice([1, 2])))
+            pr = G.rand_probs(rng, len(succ))
+            sp.P[(s_, a)] = list(zip(succ, pr))
+            sp.kind[(s_, a)] = "dict"
+            for t in succ:
+                sp.R[(s_, a, t)] = -scale * rng.choice([0.0, 1.0, 1.0])
+    sp.init = [(trans[0], 1.0)]
+    sp.meta.update(abs_kinds=[], label_kind="str", abs_type="bool", num_type="float", actions_type="tuple",
+                   fresh_labels=False, reward_scale=scale)
+    return sp
+
+
 def run_case(case, rng):
     from msdm.algorithms.multichainpolicyiteration import MultichainPolicyIteration
     from mon.gen import build as Bd
@@ -30,7 +70,10 @@ def run_case(case, rng):
 
     fam = rng.choice(["any", "avg", "avg"])
     n_max = 9 if case.tier == "thorough" and rng.random() < 0.3 else 6
-    sp = G.random_spec(rng, fam, n_max=n_max, allow_dup_actions=True)
+    sp = G.random_spec(rng, fam, n_max=n_max, allow_dup_actions=True,
+                       reward_scale=rng.choice([1.0] * 5 + [1000.0]))      # gains / values in the thousands too
+    if rng.random() < 0.1:
+        fam, sp = "funnel", _funnel(rng)
     rep = rng.choice(Bd.REPRS)
     if rng.random() < 0.12:
         rep = "annotated"       # equal-but-distinct state objects whose step note the reward function reads
